@@ -49,6 +49,7 @@ REQUIRED_BRANCHES = ['ineligible_skipped', 'all_eligible', 'nmin_zero', 'conv_ye
                      'sel_A', 'sel_N', 'sel_C', 'sel_D', 'sel_E', 'sel_F',
                      'end_eof_newline', 'end_eof_no_newline', 'end_blank_line',
                      'record_zero_fits', 'singular_source_fitted',
+                     'law_wav_micron', 'law_wav_other_unit', 'law_chi_cm2_g', 'law_chi_other_unit',
                      'pkg_indep', 'pkg_dep', 'pkg_cube', 'filter_by_wavelength', 'data_path', 'data_handle',
                      'rw_nan', 'rw_inf', 'rw_zero_fits', 'rw_fluxes', 'rw_no_fluxes',
                      'rw_share_source_buffer', 'rw_share_same_info_keep', 'rw_share_array_inplace',
@@ -109,7 +110,9 @@ def gen_pkg(rng, variant='indep'):
     dist = [d1, round(d1 * rng.uniform(1.2, 4.), 2)]
     aps = [nice(rng, 0.5, 20., 2) for _ in range(nb)]
     pkg = dict(names=names, wavs=wavs, tab_w=tw, tab_chi=chi, models=models, table_order=order,
-               par1=par1, par2=par2, av=av, dist=dist, aps=aps, variant=variant)
+               par1=par1, par2=par2, av=av, dist=dist, aps=aps, variant=variant,
+               # units the extinction law is tabulated in (tab_w / tab_chi are its micron / cm2/g numbers)
+               law_units=[rng.choice(['micron', 'micron', 'AA', 'nm', 'cm']), rng.choice(['cm2/g', 'cm2/g', 'm2/kg'])])
     if variant == 'dep':
         # apertures (AU) bracketing aperture["] x distance[pc] for every filter and distance
         pkg['ap_au'] = [1., 1e3, 3e4, 1e7][:rng.choice([3, 4])] if rng.random() < 0.5 else [0.5, 2e2, 1e8]
@@ -180,6 +183,8 @@ def gen_selector(rng, form=None, nm=4):
 def gen_fit_case(rng, directed=None):
     directed = directed or {}
     pkg = gen_pkg(rng, directed.get('variant') or rng.choice(['indep', 'indep', 'dep', 'cube']))
+    if directed.get('law_units'):
+        pkg['law_units'] = list(directed['law_units'])
     nb = len(pkg['wavs'])
     nl = directed.get('n_lines') or rng.randint(1, 12)
     n_min = directed['n_min'] if 'n_min' in directed else rng.choice([0, 1, 2, 3, 3, 3, nb - 1, nb, nb + 1])
@@ -218,6 +223,8 @@ def _sp(x):
 def gen_rw_case(rng, directed=None):
     directed = directed or {}
     pkg = gen_pkg(rng)
+    if directed.get('law_units'):
+        pkg['law_units'] = list(directed['law_units'])
     nb = len(pkg['wavs'])
     nrec = rng.randint(1, 5)
     recs = []
@@ -263,6 +270,8 @@ def gen_rw_case(rng, directed=None):
 def gen_hist_case(rng, tier, directed=None):
     directed = directed or {}
     pkg = gen_pkg(rng)
+    if directed.get('law_units'):
+        pkg['law_units'] = list(directed['law_units'])
     nb = len(pkg['wavs'])
     nm = len(pkg['models'])
     k = directed.get('k') or rng.choice([1, 1, 2, 3, 4])
@@ -317,7 +326,9 @@ def gen_cases(seed, tier):
                      dict(n_min=1, n_lines=5, force_singular=True), dict(n_min=0, n_lines=8, sel=['A', 0], force_singular=True),
                      dict(variant='dep', n_min=3, data_as='handle', conv=True), dict(variant='dep', n_min=2, sel=['N', 3], conv=False),
                      dict(variant='cube', n_min=3, data_as='path', conv=True), dict(variant='cube', n_min=2, sel=['F', 9.], data_as='handle'),
-                     dict(variant='indep', n_min=3, data_as='handle')])
+                     dict(variant='indep', n_min=3, data_as='handle', law_units=['AA', 'm2/kg']),
+                     dict(variant='dep', n_min=3, law_units=['nm', 'cm2/g']), dict(variant='cube', n_min=3, law_units=['cm', 'm2/kg']),
+                     dict(variant='indep', n_min=2, law_units=['micron', 'cm2/g'])])
     for dsp in directed_fit:
         dsp.setdefault('variant', 'indep')
         dsp.setdefault('data_as', 'path')
@@ -327,7 +338,8 @@ def gen_cases(seed, tier):
     for dsp in [dict(special='nan', share=None), dict(special='inf', share=None), dict(zero=True, share=None),
                 dict(fluxes=True, share=None), dict(fluxes=False, share=None),
                 dict(share='source_buffer'), dict(share='same_info_keep'), dict(share='array_inplace', fluxes=True),
-                dict(share='source_buffer', fluxes=True), dict(share='array_inplace', fluxes=False)]:
+                dict(share='source_buffer', fluxes=True, law_units=['AA', 'm2/kg']),
+                dict(share='array_inplace', fluxes=False, law_units=['micron', 'cm2/g']), dict(share=None, law_units=['nm', 'm2/kg'])]:
         yield gen_rw_case(case_rng(seed, PID, i), dsp)
         i += 1
     for dsp in [dict(k=1, mem_from='fit', out_sel=['A', 0], thrs=[1e-9, 1e12], conv=True),
@@ -335,7 +347,8 @@ def gen_cases(seed, tier):
                 dict(k=1, mem_from='read', out_sel=['N', 2], conv=False),
                 dict(k=2, mem_from='fit', out_sel=['A', 0], thrs=[1e-9, 1e12], conv=False, additional=True),
                 dict(k=1, mem_from='fit', out_sel=['A', 0], conv=True, pp=True, additional=False),
-                dict(k=2, mem_from='read', out_sel=['A', 0], conv=False, pp=True, additional=True)]:
+                dict(k=2, mem_from='read', out_sel=['A', 0], conv=False, pp=True, additional=True, law_units=['AA', 'm2/kg']),
+                dict(k=1, mem_from='read', out_sel=['A', 0], conv=True, law_units=['micron', 'cm2/g'])]:
         yield gen_hist_case(case_rng(seed, PID, i), tier, dsp)
         i += 1
     # thorough, exhaustive: all sequences of length <= 3 over the 15-call alphabet, one case per first call,
@@ -362,6 +375,44 @@ def gen_cases(seed, tier):
 
 
 # ----------------------------------------------------------------------------- building inputs
+
+LAW_WAV = {'micron': 1., 'AA': 1e4, 'nm': 1e3, 'cm': 1e-4}
+LAW_CHI = {'cm2/g': 1., 'm2/kg': 0.1}
+
+
+def make_law(pkg):
+    """the extinction law of the case, tabulated in the case's own units (wavelengths in micron / Angstrom /
+    nm / cm, opacities in cm2/g or m2/kg)"""
+    from astropy import units as u
+    wu, cu = pkg.get('law_units', ['micron', 'cm2/g'])
+    wav = [float('%.6g' % (w * LAW_WAV[wu])) for w in pkg['tab_w']]
+    chi = [float('%.6g' % (c * LAW_CHI[cu])) for c in pkg['tab_chi']]
+    law = pk.make_extinction(wav, chi, wav_unit={'micron': u.micron, 'AA': u.AA, 'nm': u.nm, 'cm': u.cm}[wu])
+    if cu == 'm2/kg':
+        law.chi = np.array(chi, dtype=float) * u.m ** 2 / u.kg
+    return law
+
+
+def law_branches(pkg):
+    wu, cu = pkg.get('law_units', ['micron', 'cm2/g'])
+    b = set()
+    b.add('law_wav_micron' if wu == 'micron' else 'law_wav_other_unit')
+    b.add('law_chi_cm2_g' if cu == 'cm2/g' else 'law_chi_other_unit')
+    return b
+
+
+def diff_law(got, passed):
+    """EXACT comparison of an extinction law with the one that was handed in: units and values bit for bit"""
+    for f in ('wav', 'chi'):
+        g, e = getattr(got, f), getattr(passed, f)
+        if not hasattr(g, 'unit'):
+            return 'extinction_law.%s is a %s, not a Quantity' % (f, type(g).__name__)
+        if g.unit != e.unit or str(g.unit) != str(e.unit):
+            return 'extinction_law.%s unit %s, passed in %s' % (f, g.unit, e.unit)
+        if not (np.asarray(g.value).dtype == np.asarray(e.value).dtype and same_array(g.value, e.value)):
+            return 'extinction_law.%s values %r, passed in %r (%s)' % (f, np.asarray(g.value), np.asarray(e.value), e.unit)
+    return None
+
 
 def build_pkg(pkg, d, full):
     """model package of the case: models.conf + convolved/*.fits (+ seds/ and parameters.fits when `full`),
@@ -400,7 +451,7 @@ def build_pkg(pkg, d, full):
                                [[0.] * len(pkg['ap_au']) for _ in range(nm)], apertures_au=pkg['ap_au'])
         else:
             pk.write_convolved(d, fn, w, names, [[pkg['models'][i][j]] for i in range(nm)], [[0.] for _ in range(nm)])
-    ext = pk.make_extinction(pkg['tab_w'], pkg['tab_chi'])
+    ext = make_law(pkg)
     return fnames, ext
 
 
@@ -481,7 +532,7 @@ def diff_info(got, exp):
     return None
 
 
-def diff_meta(meta, model_dir, fnames, aps, wavs, tab_w, tab_chi):
+def diff_meta(meta, model_dir, fnames, aps, wavs, ext):
     from astropy import units as u
     if meta.model_dir != model_dir:
         return 'meta.model_dir %r != %r' % (meta.model_dir, model_dir)
@@ -502,12 +553,9 @@ def diff_meta(meta, model_dir, fnames, aps, wavs, tab_w, tab_chi):
                 return 'filter wavelength %r != %r' % (f.get('wav'), n)
         if float(f['aperture_arcsec']) != float(a):
             return 'filter aperture %r != %r' % (f['aperture_arcsec'], a)
-    law = meta.extinction_law
-    if not same_array(law.wav.to(u.micron).value, np.array(tab_w, dtype=float)):
-        return 'extinction wav %r != %r' % (law.wav, tab_w)
-    if not same_array(law.chi.to(u.cm ** 2 / u.g).value, np.array(tab_chi, dtype=float)):
-        return 'extinction chi %r != %r' % (law.chi, tab_chi)
-    return None
+        if not (isinstance(f['wav'], u.Quantity) and f['wav'].unit == u.micron):
+            return 'filter wavelength %r is not a Quantity in micron' % (f['wav'],)
+    return diff_law(meta.extinction_law, ext)
 
 
 def meta_diff_by_value(a, b):
@@ -530,7 +578,8 @@ def meta_diff_by_value(a, b):
                 return 'filter[%s] %r != %r' % (k, va, vb)
     for f in ('wav', 'chi'):
         qa, qb = getattr(a.extinction_law, f), getattr(b.extinction_law, f)
-        if str(qa.unit) != str(qb.unit) or not same_array(qa.value, qb.value):
+        if (str(getattr(qa, 'unit', None)) != str(getattr(qb, 'unit', None))
+                or not same_array(getattr(qa, 'value', qa), getattr(qb, 'value', qb))):
             return 'extinction_law.%s %r != %r' % (f, qa, qb)
     return None
 
@@ -619,7 +668,10 @@ def run_fit_case(case, use_model=True):
                 return CaseResult(False, violates=True, branches=branches,
                                   detail='record of %s: predicted fluxes present=%r but output_convolved=%r'
                                          % (e.source.name, r.model_fluxes is not None, conv))
-        dm = diff_meta(meta, d, fnames, pkg['aps'], pkg['wavs'], pkg['tab_w'], pkg['tab_chi'])
+        dm = diff_meta(meta, d, fnames, pkg['aps'], pkg['wavs'], ext)
+        if not dm and exp:
+            # exactly the metadata the object interface attaches (filter wavelengths / apertures / law: units and values)
+            dm = meta_diff_by_value(meta, exp[0].meta)
         if dm:
             return CaseResult(False, violates=True, branches=branches, detail='metadata read back changed: ' + dm)
         for r in recs:
@@ -650,6 +702,7 @@ def run_fit_case(case, use_model=True):
         if any(nds[i] < 2 for i in elig):
             branches.add('singular_source_fitted')
         branches.add('pkg_' + pkg.get('variant', 'indep'))
+        branches |= law_branches(pkg)
         if any(not isinstance(f, str) for f in fnames):
             branches.add('filter_by_wavelength')
         branches.add('data_' + case.get('data_as', 'path'))
@@ -756,7 +809,7 @@ def run_rw_case(case, use_model=True):
     d = tempfile.mkdtemp(prefix='c10w_')
     branches = set()
     try:
-        ext = pk.make_extinction(pkg['tab_w'], pkg['tab_chi'])
+        ext = make_law(pkg)
         filters = [{'aperture_arcsec': float(a), 'name': 'B%d' % j, 'wav': w * u.micron}
                    for j, (a, w) in enumerate(zip(pkg['aps'], pkg['wavs']))]
         meta = (os.path.join(d, 'models'), filters, ext)
@@ -789,7 +842,7 @@ def run_rw_case(case, use_model=True):
                 return CaseResult(False, violates=True,
                                   detail='record %d (%s) read back differs from the object as it was when written%s: %s'
                                          % (ri, e.source.name, how, dd))
-        dm = diff_meta(rmeta, meta[0], ['B%d' % j for j in range(len(filters))], pkg['aps'], pkg['wavs'], pkg['tab_w'], pkg['tab_chi'])
+        dm = diff_meta(rmeta, meta[0], ['B%d' % j for j in range(len(filters))], pkg['aps'], pkg['wavs'], ext)
         if dm:
             return CaseResult(False, violates=True, detail='metadata changed in write->read: ' + dm)
         if use_model:
@@ -806,6 +859,7 @@ def run_rw_case(case, use_model=True):
         branches.add('rw_fluxes' if any(r['fluxes'] is not None for r in case['recs']) else 'rw_no_fluxes')
         if share:
             branches.add('rw_share_' + share)
+        branches |= law_branches(pkg)
         if any(r['fluxes'] is None for r in case['recs']):
             branches.add('rw_no_fluxes')
         sample = dict(kind='rw', n_records=len(infos), share=share, chi2=[r['chi2'] for r in case['recs']][:3])
@@ -1081,9 +1135,14 @@ def run_hist_case(case, use_model=True):
         sel0 = case['out_sel']
         try:
             run_fit(pkg, d, fnames, ext, data, out, 3, sel0, case['conv'])
-            _, from_file = read_fit_file(out)
+            hmeta, from_file = read_fit_file(out)
         except Exception as e:
             return CaseResult(False, violates=True, detail='fit()/read raised %s: %s' % (type(e).__name__, e))
+        if hmeta is not None:
+            dm = diff_meta(hmeta, d, fnames, pkg['aps'], pkg['wavs'], ext)
+            if dm:
+                return CaseResult(False, violates=True, detail='metadata read back changed: ' + dm)
+        branches |= law_branches(pkg)
         k = len(case['sources'])
         if len(from_file) != k:
             return CaseResult(False, violates=True, detail='fit() wrote %d records for %d eligible sources' % (len(from_file), k))
